@@ -482,7 +482,7 @@ def panic_search(repo, prop, tier, seed=1):
     fcntl.flock(lockf, fcntl.LOCK_EX)
     try:
         count = 200000 if tier == "thorough" else 10000
-        res = {"what": "bounded replay of C13 on the real `des` crate: %d seeded random scenarios - module f (1..3 start-up stages, a ticking task, echoes every message it gets from g) panics in a start-up stage, at its 1st..4th message, in its tear-down, or never, with or without a stereotype that catches panics; g also feeds h over a direct link and h ticks. Compared event for event (module, what, time): f's stages / messages / ticks up to the panic and none afterwards during the run, g's echoes only for messages f handled, h completely undisturbed, g and h torn down exactly once; run() must return (never unwind) and list exactly 'module f panicked' iff an uncaught panic happened; after every scenario a plain second simulation must behave normally in the same process" % count,
+        res = {"what": "bounded replay of C13 on the real `des` crate: %d seeded random scenarios - module f (1..3 start-up stages, a ticking task, echoes every message it gets from g) panics in a start-up stage, at its 1st..4th message, in its tear-down, or never, with or without a stereotype that catches panics; g also feeds h over a direct link and h ticks. Compared event for event (module, what, time): f's stages / messages / ticks up to the panic and none afterwards during the run, g's echoes only for messages f handled, h completely undisturbed, g and h torn down exactly once; run() must return (never unwind) and list exactly 'module f panicked' iff an uncaught panic happened (also for a module that shut itself down earlier and panics in its tear-down; followed by 'module g panicked' when g panics in its tear-down as well); what f sent in the panicking event before the panic still arrives; after every scenario a plain second simulation must behave normally in the same process" % count,
                "bound": "%d random scenarios (each followed by a control simulation); seed %d" % (count, seed), "labelled": "bounded", "counts_as_proof": False}
         exe, err = _build_rt(repo, "panic_driver")
         if exe is None:
